@@ -466,7 +466,7 @@ def rules_groupby(run):
 
 
 def check(run):
-    rules_selection(run)
-    c05.rules_consumption(run, 'C01', '.5')
-    rules_groupby(run)
-    c05.rules_select_event(run, 'C01', '.7')   # C01.7 = event peek (shared with C05.3)
+    run.guard(rules_selection, run)
+    run.guard(c05.rules_consumption, run, 'C01', '.5')
+    run.guard(rules_groupby, run)
+    run.guard(c05.rules_select_event, run, 'C01', '.7')
